@@ -1258,3 +1258,14 @@ Proof.
   - rewrite Hs'. apply CInv_run; [assumption|assumption|apply CInv_init].
   - apply step_answered_acked. assumption.
 Qed.
+
+Lemma CInv_deliver_sub_W cf s m : CInv s ->
+  (forall p, s_rp s = Some p -> nsub (rp_fr p) (s_last s) (hr_of s) m) -> CInv (deliver_sub_W cf s m).
+Proof.
+  intros (HS & HN & HA) Hm. destruct (s_rp s) as [p|] eqn:Ep.
+  - split; [apply deliver_sub_W_SInv; assumption|]. split.
+    + intros Hn. rewrite deliver_sub_W_rd in Hn. destruct (HN Hn) as [_ Hp]. congruence.
+    + eapply AInv_deliver_sub_W; [assumption|exact Ep|apply Hm; reflexivity].
+  - assert (Hs : deliver_sub_W cf s m = s) by (unfold deliver_sub_W; rewrite Ep; reflexivity).
+    rewrite Hs. split; [|split]; assumption.
+Qed.
